@@ -693,6 +693,69 @@ theorem preparedOf_three (σ : State) (c : ClassId) (h4 : (seqOf σ c .fieldSche
   rw [heq, hlen]
   simp [generatedDefaults]
 
+/-! ## what the lazy preparation of a compound class preserves (KF-C06-a, the guarded part) -/
+
+theorem deref_preparedFrom {σ τ : State} {p : ClassId} (h : PreparedFrom σ τ p) (hwf : WF σ) (c : ClassId) (a : Attr)
+    (hl : τ.lookup c a = σ.lookup c a) : deepLookup τ c a = deepLookup σ c a := by
+  unfold deepLookup
+  rw [hl]
+  cases hv : σ.lookup c a with
+  | none => rfl
+  | some v =>
+    obtain ⟨x, _, hx⟩ := List.exists_of_findSome?_eq_some hv
+    cases v <;> simp only [deref]
+    case list r => rw [h.heap r (hwf.ref_lt x a r (Or.inl hx))]
+    case tuple r => rw [h.heap r (hwf.ref_lt x a r (Or.inr (Or.inl hx)))]
+    case anonDict r => rw [h.heap r (hwf.ref_lt x a r (Or.inr (Or.inr hx)))]
+
+/-- the state after a lazily preparing instantiation of `p` is the store itself (the call raised
+    before preparing) or `compoundInit σ p` -/
+theorem step_lazy_state (σ : State) (s : Step) (p : ClassId) (hl : lazyPrep σ s = some p) :
+    (step σ s).1 = σ ∨ (p < σ.classes.length ∧ (step σ s).1 = (compoundInit σ p).1) := by
+  cases s with
+  | inst c kw =>
+    simp only [lazyPrep] at hl
+    split at hl
+    · rename_i hcond
+      simp only [Option.some.injEq] at hl
+      subst hl
+      simp only [Bool.and_eq_true, Bool.not_eq_true', beq_iff_eq] at hcond
+      obtain ⟨⟨hk, hov⟩, hprep⟩ := hcond
+      have hprep' : σ.isPrepared c = false := hprep
+      simp only [step]
+      split
+      · rename_i hc
+        simp only [hk, beq_self_eq_true, if_true, hov, Bool.not_true, Bool.false_eq_true, if_false, hprep']
+        by_cases hr : ((compoundInit σ c).snd != Res.ok) = true
+        · left; simp only [hr, if_true]
+        · right
+          refine ⟨hc, ?_⟩
+          simp only [hr]
+          split
+          · rename_i h; exact absurd h (by simp)
+          · split <;> rfl
+      · left; rfl
+    · simp at hl
+  | _ => simp [lazyPrep] at hl
+
+/-- **Frame under lazy preparation.**  The first plain instantiation of an unprepared compound
+    class `p` changes nothing but `field_schema`, and that only for the classes that have `p` in
+    their MRO: every other attribute of every class, and every attribute of every class not below
+    `p`, reads as before. -/
+theorem frame_lazy (σ : State) (hwf : WF σ) (s : Step) (p : ClassId) (hl : lazyPrep σ s = some p)
+    (c : ClassId) :
+    (∀ a, a ≠ .fieldSchema → deepLookup (step σ s).1 c a = deepLookup σ c a) ∧
+    (p ∉ σ.mroOf c → ∀ a, deepLookup (step σ s).1 c a = deepLookup σ c a) := by
+  rcases step_lazy_state σ s p hl with e | ⟨hp, e⟩
+  · rw [e]; exact ⟨fun _ _ => rfl, fun _ _ => rfl⟩
+  · rw [e]
+    have h := compoundInit_preparedFrom σ p hp
+    refine ⟨fun a ha => deref_preparedFrom h hwf c a (lookup_ne_preparedFrom h c a ha), fun hnot a => ?_⟩
+    apply deref_preparedFrom h hwf c a
+    unfold State.lookup
+    rw [h.mro c]
+    exact findSome?_ext' _ _ _ (fun x hx => by rw [h.own_ne x (fun e' => hnot (e' ▸ hx))])
+
 /-! ## well-formedness is decidable; the runner checks it after every step of every history -/
 
 theorem mem_of_assoc {α β : Type} [DecidableEq α] (l : List (α × β)) (a : α) (b : β)
